@@ -19,7 +19,7 @@ from core.report import Result
 from . import c01, c03
 from .common import where
 from .tables import (
-    EXPLICIT_QUERY, LEGAL_POINTS, Scenario, bucket_wiring, demand_run, parse_language_doc, plain_detector_class, plain_mode, point_name, run_scenario, violations_class,
+    EXPLICIT_QUERY, LEGAL_POINTS, Scenario, bucket_wiring, demand_run, parse_language_doc, plain_detector_class, plain_mode, point_name, point_taint, run_scenario, violations_class,
 )
 
 
@@ -39,9 +39,21 @@ def _active(repo: Repo, verb: str, exc: bool, imp: bool) -> set:
     return {(b.source, b.mode) for b in demand_run(repo, Scenario(verb, exc, imp)).values() if not b.empty}
 
 
+def _canon(text: str) -> str:
+    """Iteration ids are allocated in evaluation order: rename them by first appearance so that two runs can be compared."""
+    import re
+
+    ids: dict[str, str] = {}
+
+    def ren(m):
+        return m.group(1) + ids.setdefault(m.group(2), str(len(ids) + 1))
+
+    return re.sub(r"(val@|\bval|\bkey|\belem)(\d+)", ren, text)
+
+
 def _shape(b) -> tuple:
     """What a bucket judges, independent of the orientation of the reported pair."""
-    return (b.source, b.mode, b.gran, tuple(sorted((g.kind, c01.show(g.guard)) for g in b.groups)))
+    return (b.source, b.mode, b.gran, tuple(sorted((g.kind, _canon(c01.show(g.guard))) for g in b.groups)))
 
 
 def run(repo: Repo) -> Result:
@@ -81,14 +93,16 @@ def run(repo: Repo) -> Result:
             bi, bb = demand_run(repo, Scenario(verb, exc, True))[f], demand_run(repo, Scenario(verb, exc, False))[f]
             if bi.empty != bb.empty:
                 diff.append(f"'{point_name(verb, exc)}': active only for {'import' if bb.empty else 'be-imported-by'} rules")
-            elif not bi.empty and _shape(bi) != _shape(bb):
+            elif not bi.empty and (bi.source, bi.mode, bi.gran) != (bb.source, bb.mode, bb.gran):
+                diff.append(f"'{point_name(verb, exc)}': import rules judge {bi.source}/{bi.mode}/{bi.gran}, be-imported-by rules {bb.source}/{bb.mode}/{bb.gran}")
+            elif not bi.empty and bi.source == "explicit" and _shape(bi) != _shape(bb):
                 diff.append(f"'{point_name(verb, exc)}': import rules judge {bi.source}/{bi.mode}/{bi.gran}, be-imported-by rules {bb.source}/{bb.mode}/{bb.gran}")
         h = helper_of(f)
         prefix = f"{h.relpath}::{h.qualname}" if h is not None else f"{grv.relpath}::{grv.qualname}"
-        res.add(
-            "C12.DUAL", f"{prefix}::predicate of {f} independent of direction", not diff,
+        c01._add(
+            res, "C12.DUAL", f"{prefix}::predicate of {f} independent of direction", not diff,
             "flag and judging predicate do not look at the rule's direction (only the orientation of the reported pair does)" if not diff else f"{f} depends on the rule's direction: " + "; ".join(diff[:2]) + " - a rule and its dual can differ",
-            where(h, h.node) if h is not None else where(grv, grv.node), kind="decision-table",
+            where(h, h.node) if h is not None else where(grv, grv.node), "decision-table", next((t for v, e in LEGAL_POINTS for t in [point_taint(repo, v, e)] if t), ""),
         )
     tmp = Result("C01")
     c01.run_t4(repo, tmp, None)
@@ -100,11 +114,11 @@ def run(repo: Repo) -> Result:
             ok = len(a) == 1 and len(b_) == 1 and next(iter(a))[0] == next(iter(b_))[0] and {next(iter(a))[1], next(iter(b_))[1]} == {"absent", "present"}
             if not ok or not imp:
                 break
-        res.add(
-            "C12.NEG", f"{grv.relpath}::{grv.qualname}::should vs should_not{' except' if exc else ''}", ok,
+        c01._add(
+            res, "C12.NEG", f"{grv.relpath}::{grv.qualname}::should vs should_not{' except' if exc else ''}", ok,
             f"should judges {sorted(map(str, a))}, should_not judges {sorted(map(str, b_))}: same source, complementary predicates" if ok
             else f"should judges {sorted(map(str, a))} but should_not judges {sorted(map(str, b_))}: for one subject and one object the two verdicts are no longer complementary",
-            where(grv, grv.node), kind="decision-table",
+            where(grv, grv.node), "decision-table", point_taint(repo, "should", exc) or point_taint(repo, "should_not", exc),
         )
     for f in viol.ann_attrs:
         mode, gran, detail, und = plain_mode(repo, f)
@@ -124,11 +138,12 @@ def run(repo: Repo) -> Result:
             parts = _active(repo, "should", exc, imp) | _active(repo, "should_not", not exc, imp)
             if whole != parts:
                 break
-        res.add(
-            "C12.DECOMP", f"{grv.relpath}::{grv.qualname}::should_only{' except' if exc else ''}", whole == parts,
+        dtaint = point_taint(repo, "should_only", exc) or point_taint(repo, "should", exc) or point_taint(repo, "should_not", not exc)
+        c01._add(
+            res, "C12.DECOMP", f"{grv.relpath}::{grv.qualname}::should_only{' except' if exc else ''}", whole == parts,
             f"should only{' except' if exc else ''} judges {sorted(map(str, whole))} = should{' except' if exc else ''} + should not{'' if exc else ' except'} {sorted(map(str, parts))}" if whole == parts
             else f"should only{' except' if exc else ''} judges {sorted(map(str, whole))}, but its two parts judge {sorted(map(str, parts))}",
-            where(grv, grv.node), kind="decision-table",
+            where(grv, grv.node), "decision-table", dtaint,
         )
         # the predicates, not only the (source, mode) pairs, coincide: same granularity in the whole and in its parts
         for imp in (True, False):
@@ -136,11 +151,11 @@ def run(repo: Repo) -> Result:
             p = {(b.source, b.mode, b.gran) for v, e in (("should", exc), ("should_not", not exc)) for b in demand_run(repo, Scenario(v, e, imp)).values() if not b.empty}
             if w != p:
                 break
-        res.add(
-            "C12.DECOMP", f"{grv.relpath}::{grv.qualname}::predicates of should_only{' except' if exc else ''}", w == p,
+        c01._add(
+            res, "C12.DECOMP", f"{grv.relpath}::{grv.qualname}::predicates of should_only{' except' if exc else ''}", w == p,
             "the whole and its parts judge the same answers with the same predicates" if w == p
             else f"should only{' except' if exc else ''} judges {sorted(map(str, w))}, while should{' except' if exc else ''} / should not{'' if exc else ' except'} judge {sorted(map(str, p))}: 'should only' no longer passes exactly when both parts pass",
-            where(grv, grv.node), kind="decision-table",
+            where(grv, grv.node), "decision-table", dtaint,
         )
     # both parts ask the questions the whole asks
     for exc in (False, True):
@@ -169,6 +184,6 @@ def run(repo: Repo) -> Result:
     for rule, floor in (("C12.DUAL", 12), ("C12.NEG", 8), ("C12.DECOMP", 4), ("C12.ALIAS", 3), ("C12.MONO", 12)):
         if rule == "C12.MONO" and not mono_ok:
             continue  # the search model gave up (reported as undecided above): the floor would only repeat that
-        res.floor(rule, floor, sum(1 for o in res.obligations if o.rule == rule))
+        res.floor(rule, floor, sum(1 for o in res.obligations if o.rule == rule) + sum(1 for u in res.undecided if u["rule"] == rule))
     res.analysed["bucket_sets"] = {point_name(v, e): sorted(map(str, _active(repo, v, e, True))) for v, e in LEGAL_POINTS}
     return res
